@@ -1,12 +1,83 @@
 from core import Unit as U
-# C06: self-composition on the branch-decision trace (goto-instrument --branch leak), see harness/C06/ct.h
+# C06: self-composition on the branch-decision trace (goto-instrument --branch leak); see harness/C06/ct.h.
+# The usual memory-safety/overflow checks of these functions belong to C05/C07; they are switched off here
+# (NOCHK) in units whose arithmetic would otherwise be dragged into the solver - the C06 obligation is the
+# trace equality only.  slice_formula drops all arithmetic that cannot reach a branch condition.
 NOCHK = ["--no-bounds-check", "--no-pointer-check", "--no-signed-overflow-check", "--no-undefined-shift-check",
          "--no-div-by-zero-check"]
-def CT(name, harness, entry, functions, **kw):
-    kw.setdefault("timeout", 300)
-    return U("C06." + name, ["C06"], "harness/C06/" + harness, entry, branch=True, functions=functions, **kw)
+# LOCAL WORKAROUND (reported to the lead): core.cbmc_cmd hard-codes --object-bits 12; the whole-multiplier
+# units create > 4096 objects (every activation of fe_mul_inner has two address-taken int128 locals), and
+# cbmc honours only the FIRST --object-bits on its command line.  Units may carry an `object_bits` attribute.
+import core as _core
+if not getattr(_core, "_c06_object_bits_patch", False):
+    _orig_cbmc_cmd = _core.cbmc_cmd
+    def _cbmc_cmd(u, extra=()):
+        cmd = _orig_cbmc_cmd(u, extra)
+        ob = getattr(u, "object_bits", None)
+        if ob and "--object-bits" in cmd:
+            cmd[cmd.index("--object-bits") + 1] = str(ob)
+        return cmd
+    _core.cbmc_cmd = _cbmc_cmd
+    _core._c06_object_bits_patch = True
+def CT(name, harness, entry, functions, object_bits=None, **kw):
+    kw.setdefault("timeout", 600)
+    kw.setdefault("slice_formula", True)
+    kw.setdefault("flags", NOCHK)
+    kw.setdefault("min_obl", 2)
+    u = U("C06." + name, ["C06"], "harness/C06/" + harness, entry, branch=True, functions=functions, **kw)
+    u.object_bits = object_bits
+    return u
+LEN = dict(unwind=194, defs=["CT_MAX=256"], closed_by="public len <= 192 fully unwound, unwinding assertions prove the bound (all call sites in src/ pass constants <= 162)")
+SCALAR_BASIC = ["secp256k1_scalar_" + f for f in "cmov cond_negate negate add cadd_bit half set_b32 set_b32_seckey get_b32 is_zero is_one is_even is_high eq check_overflow reduce get_bits_limb32 clear".split()]
+FE_BASIC = ["secp256k1_fe_" + f for f in "cmov storage_cmov normalize normalize_weak normalizes_to_zero negate add mul_int add_int half to_storage from_storage is_odd is_zero equal get_b32 set_b32_mod set_b32_limit clear".split()]
+GROUP_BASIC = ["secp256k1_ge_storage_cmov", "secp256k1_gej_cmov", "secp256k1_ge_to_storage", "secp256k1_ge_from_storage", "secp256k1_gej_set_ge", "secp256k1_ge_neg", "secp256k1_gej_neg", "secp256k1_gej_rescale", "secp256k1_ge_mul_lambda", "secp256k1_ge_clear", "secp256k1_gej_clear"]
+MOD = ["--replace-calls", "secp256k1_gej_add_ge:ct_havoc_gej_add_ge", "--replace-calls", "secp256k1_gej_double:ct_havoc_gej_double"]
+ODD = ["--replace-calls", "secp256k1_ecmult_const_odd_multiples_table_globalz:ct_stub_odd_multiples_table_globalz"]
 UNITS = [
-    CT("util", "util.c", "h_ct_util", ["secp256k1_memczero", "secp256k1_is_zero_array", "secp256k1_int_cmov"],
-       unwind=194, min_obl=100, defs=["CT_MAX=256"], closed_by="public len <= 192 unwound (all call sites use constants <= 162)",
-       note="secret: flag, buffer contents; public: len"),
+    CT("memczero", "util.c", "h_ct_memczero", ["secp256k1_memczero"], note="secret: flag, buffer; public: len", **LEN),
+    CT("is_zero_array", "util.c", "h_ct_is_zero_array", ["secp256k1_is_zero_array"], note="secret: contents; public: len", **LEN),
+    CT("int_cmov", "util.c", "h_ct_int_cmov", ["secp256k1_int_cmov"]),
+    CT("scalar_basic", "scalar.c", "h_ct_scalar_basic", SCALAR_BASIC, min_obl=20),
+    CT("scalar_mul", "scalar.c", "h_ct_scalar_mul", ["secp256k1_scalar_mul", "secp256k1_scalar_sqr", "secp256k1_scalar_mul_512", "secp256k1_scalar_sqr_512", "secp256k1_scalar_reduce_512"]),
+    CT("scalar_inverse", "scalar.c", "h_ct_scalar_inverse", ["secp256k1_scalar_inverse", "secp256k1_modinv64", "secp256k1_modinv64_divsteps_59", "secp256k1_modinv64_update_de_62", "secp256k1_modinv64_update_fg_62", "secp256k1_modinv64_normalize_62"]),
+    CT("scalar_split_lambda", "scalar.c", "h_ct_scalar_split_lambda", ["secp256k1_scalar_split_lambda", "secp256k1_scalar_split_128", "secp256k1_scalar_mul_shift_var"]),
+    CT("fe_basic", "field.c", "h_ct_fe_basic", FE_BASIC, min_obl=20),
+    CT("fe_mul", "field.c", "h_ct_fe_mul", ["secp256k1_fe_mul", "secp256k1_fe_sqr", "secp256k1_fe_mul_inner", "secp256k1_fe_sqr_inner"]),
+    CT("fe_inv", "field.c", "h_ct_fe_inv", ["secp256k1_fe_inv", "secp256k1_modinv64"]),
+    CT("fe_sqrt", "field.c", "h_ct_fe_sqrt", ["secp256k1_fe_sqrt"]),
+    CT("group_cmov", "group.c", "h_ct_group_cmov", GROUP_BASIC, min_obl=10),
+    CT("ge_set_gej", "group.c", "h_ct_ge_set_gej", ["secp256k1_ge_set_gej"]),
+    CT("gej_add_ge", "group.c", "h_ct_gej_add_ge", ["secp256k1_gej_add_ge"]),
+    CT("gej_double", "group.c", "h_ct_gej_double", ["secp256k1_gej_double"]),
+    # --- multipliers and table scans (small table preset of harness/cfg.h unless VERIF_BIG_TABLES) ---
+    # modular (quick): gej_add_ge / gej_double calls redirected to arbitrary-point stubs (their own trace
+    # independence is C06.gej_add_ge / C06.gej_double); whole (thorough): every callee real.
+    CT("ecmult_gen", "ecmult.c", "h_ct_ecmult_gen", ["secp256k1_ecmult_gen"], min_obl=3, extra_instrument=[MOD],
+       note="modular; COMB 2x5 preset (26 outer iterations, doubling path exercised)"),
+    CT("ecmult_gen_scan", "ecmult.c", "h_ct_ecmult_gen_scan", ["secp256k1_ecmult_gen"], min_obl=6,
+       extra_instrument=[MOD + ["--replace-calls", "secp256k1_ge_storage_cmov:ct_log_ge_storage_cmov"]],
+       note="address log: ge_storage_cmov calls redirected to a logging wrapper with the same data effect; modular; COMB 2x5 preset"),
+    CT("const_table_get", "ecmult.c", "h_ct_const_table_get", ["ECMULT_CONST_TABLE_GET_GE"], min_obl=6,
+       extra_instrument=[["--replace-calls", "secp256k1_fe_impl_cmov:ct_log_fe_cmov"]],
+       note="macro instantiated on a harness-owned public table; fe_cmov calls redirected to a logging wrapper"),
+    CT("ecmult_const", "ecmult.c", "h_ct_ecmult_const", ["secp256k1_ecmult_const"], min_obl=3, defs=["CT_LOG_FE_CMOV", "CT_MODULAR"],
+       extra_instrument=[MOD + ["--replace-calls", "secp256k1_fe_impl_cmov:ct_log_fe_cmov"] + ODD],
+       assumed=["secp256k1_ecmult_const_odd_multiples_table_globalz"],
+       note="modular; public point; the variable-time-in-the-point precomputation is replaced by 'same arbitrary table in both runs' (it receives public data only)"),
+    CT("ecmult_gen_whole", "ecmult.c", "h_ct_ecmult_gen", ["secp256k1_ecmult_gen"], min_obl=3, tier="thorough", timeout=1800, object_bits=16,
+       note="every callee real; COMB 2x5 preset"),
+    CT("ecmult_gen_whole_big", "ecmult.c", "h_ct_ecmult_gen", ["secp256k1_ecmult_gen"], min_obl=3, defs=["VERIF_BIG_TABLES"], tier="thorough", timeout=1800, object_bits=16,
+       note="every callee real; shipped COMB 43x6"),
+    CT("ecmult_gen_scan_big", "ecmult.c", "h_ct_ecmult_gen_scan", ["secp256k1_ecmult_gen"], min_obl=6, defs=["VERIF_BIG_TABLES"], tier="thorough", timeout=1800, object_bits=16,
+       extra_instrument=[MOD + ["--replace-calls", "secp256k1_ge_storage_cmov:ct_log_ge_storage_cmov"]], note="modular; shipped COMB 43x6"),
+    CT("ecmult_const_whole", "ecmult.c", "h_ct_ecmult_const", ["secp256k1_ecmult_const"], min_obl=3, tier="thorough", timeout=1800, object_bits=16,
+       extra_instrument=[ODD], assumed=["secp256k1_ecmult_const_odd_multiples_table_globalz"],
+       note="every constant-time callee real; public point; precomputation as in C06.ecmult_const"),
+    # --- hashing over secret data ---
+    CT("sha256_write", "sha256.c", "h_ct_sha256_write", ["secp256k1_sha256_write", "secp256k1_sha256_transform", "secp256k1_sha256_transform_impl"],
+       unwind=6, defs=["CT_MAX=256"], closed_by="public len <= 200 (<= 3 direct blocks) unwound; unwinding assertions prove the bound",
+       note="secret: data, state, buffer; public: len, byte counter"),
+    CT("sha256_finalize", "sha256.c", "h_ct_sha256_finalize", ["secp256k1_sha256_finalize", "secp256k1_sha256_write"], unwind=10, defs=["CT_MAX=256"]),
+    CT("hmac", "sha256.c", "h_ct_hmac", ["secp256k1_hmac_sha256_initialize", "secp256k1_hmac_sha256_write", "secp256k1_hmac_sha256_finalize"], unwind=66, defs=["CT_MAX=1024"]),
+    CT("rfc6979", "sha256.c", "h_ct_rfc6979", ["secp256k1_rfc6979_hmac_sha256_initialize", "secp256k1_rfc6979_hmac_sha256_generate"], unwind=66, defs=["CT_MAX=4096"]),
 ]
